@@ -16,6 +16,7 @@ FIXED = [
  ("C11", "responses for a search ID", "the driver panicked on an unexpected operation under a search ID and on a malformed SearchResultDone body: signatures C11.a|driver-panic/src/conn.rs/unrecognized op id, C11.a|driver-panic/src/result.rs/*, C11.a|driver-panic/src/search.rs/referrals"),
  ("C11", "must be a universal SEQUENCE", "an application- or context-class element numbered 16 was accepted as message envelope: signature C11.d|not-rejected/outer-not-sequence"),
  ("C17", "hanging when the server closes during StartTLS", "with_settings() never returned when the server closed the connection after reading the StartTLS request (also met by the C18 lane): signatures C17.process|process-stall, C18.process|process-stall"),
+ ("C17", "unmatched response does not end the StartTLS exchange", "with_settings() never returned when the server sent a message with an unmatched ID (e.g. a Notice of Disconnection, message ID 0) instead of or before the StartTLS response: the single-exchange driver turn ended with the reply sender of the StartTLS request still registered (pointed out by two sub-agents of the sixth round, reproduced by ESTABTLS once its peer could send such a notice): signature C17.process|process-stall with StartTlsResp NoticeThenClose"),
  ("C18", "without a host connects to localhost", "ldap:/// and ldaps:/// panicked ('unexpected None from url.host_str()'): signatures C18.panic|ldap/host-absent/.../panic"),
  ("C03", "does not fit 32 bits is not truncated", "a result code that does not fit 32 bits (ENUMERATED of five or more significant octets, e.g. 0x1_0000_0000) was truncated with `as u32`: the caller saw rc=0, success() / non_error() accepted it: signature C03.helpers|code-beyond-32-bits-reads-as-success"),
  ("C17", "does not fit 32 bits is not truncated", "the same truncation made with_settings() accept a StartTLS response carrying such a code as success and return a usable handle: signatures C17.b|ok-although-establishment-must-fail/CodeWide/*"),
